@@ -419,7 +419,9 @@ def certLegal (ty : String) (kv : String → Option String) : Bool :=
   let present := fun k => g k ≠ "-"
   let okVid := fun k => !(present k) || isHex4 (g k)
   let ku := g "ku"
-  let common := g "bcc" = "1" ∧ g "kuc" = "1" ∧ g "unk" ≠ "2" ∧ present "skid" ∧
+  -- structural variants (`x=`) and raw time elements are compared with the model only
+  let common := !(present "x") ∧ !(present "nbraw") ∧ !(present "naraw") ∧
+    g "bcc" = "1" ∧ g "kuc" = "1" ∧ g "unk" ≠ "2" ∧ present "skid" ∧
     okVid "ivid" ∧ okVid "ipid" ∧ okVid "svid" ∧ okVid "spid" ∧
     ((optHex (kv "pk")).getD []).length = 65 ∧ ((optHex (kv "pk")).getD []).head? = some 4 ∧
     natOf (kv "nb") ≤ 253402300799 ∧ (g "na" = "inf" ∨ natOf (kv "na") ≤ 253402300799) ∧
